@@ -451,19 +451,19 @@ def unexercised_blocks(pid, cases, log, all_blocks=False, files=None):
                     loc = (m.group(1), int(m.group(2)), int(m.group(3)))
                     blocks[loc] = blocks.get(loc, 0) + int(m.group(4))
         # functions the run never entered are not part of what this property's stream exercises (another property's
-        # check answers for them); only an unexecuted block inside a function that did run is reported
-        rc, fout = sh(['go', 'tool', 'covdata', 'func', '-i=' + d], env=GOENV, timeout=300)
-        starts = {}
-        for line in fout.splitlines():
-            m = re.match(r'github\.com/ja7ad/otp/([^:]+):(\d+):\s+(\S+)\s+([0-9.]+)%', line)
-            if m and m.group(1) in files:
-                starts.setdefault(m.group(1), []).append((int(m.group(2)), float(m.group(4)) > 0))
+        # check answers for them); only an unexecuted block inside a function that did run is reported.  The line
+        # ranges of the functions (declarations and package-level function literals) come from the translator's report.
+        ranges = []
+        try:
+            ranges = [tuple(x) for x in json.load(open(os.path.join(WORK, 'gen_model.json'))).get('funcs', [])]
+        except Exception:
+            pass
         def entered(f, sl):
-            best = None
-            for (l, e) in sorted(starts.get(f, [])):
-                if l <= sl:
-                    best = e
-            return True if best is None else best
+            inside = [(a, b) for (ff, a, b) in ranges if ff == f and a <= sl <= b]
+            if not inside:
+                return True
+            a, b = min(inside, key=lambda r: r[1] - r[0])
+            return any(n > 0 for (ff, s2, e2), n in blocks.items() if ff == f and a <= s2 <= b)
         for (f, sl, el), n in sorted(blocks.items()):
             if all_blocks or (n == 0 and entered(f, sl)):
                 missed.append(('%s:%d' % (f, sl), block_key(REPO, f, sl, el)))
